@@ -52,6 +52,9 @@ type pintRun struct {
 type simServer struct {
 	Host string
 	DB   func(now time.Time) *simprom.MemDB
+	// NoFlagsAPI: answers 404 on /api/v1/status/flags like Thanos or Mimir do - a static
+	// property of the server, its answers stay a pure function of the request
+	NoFlagsAPI bool
 }
 
 type simEnv struct {
@@ -153,6 +156,14 @@ func runPint(t *testing.T, env simEnv, record bool) pintRun {
 			be.Metadata["errors_total"] = "counter"
 			be.Metadata["up"] = "gauge"
 			srv := simprom.NewServer(i, sv.Host, s, be)
+			if sv.NoFlagsAPI {
+				srv.FaultFn = func(req *simprom.Request) simprom.Fault {
+					if req.Endpoint == "/api/v1/status/flags" {
+						return simprom.Fault{Mode: simprom.ModeNotFound}
+					}
+					return simprom.Fault{Mode: simprom.ModeOK}
+				}
+			}
 			srv.Start(nw, nil)
 			servers = append(servers, srv)
 		}
